@@ -585,8 +585,8 @@ def r7_plurality_veto_shape(ctx):
     rc = astx.calls_in(f.node, "remove_cand")
     good = len(marks) == 1 and isinstance(pm.get(marks[0]), ast.For) and astx.u(pm[marks[0]].iter) == "eliminated_cands" and len(rc) == 1
     if good:
-        kw = {k.arg: astx.u(k.value) for k in rc[0].keywords}
-        good = astx.u(rc[0].args[0]) == "eliminated_cands" and astx.u(rc[0].args[1]) == f.params[1] and kw == {"condense": "False", "leave_zero_weight_ballots": "True"}
+        b = {k: astx.u(v) for k, v in astx.bind_args(rc[0], prog.find_func("remove_cand").params).items()}
+        good = b == {"removed": "eliminated_cands", "profile_or_ballots": f.params[1], "condense": "False", "leave_zero_weight_ballots": "True"}
     ctx.check(good, f, rc[0] if rc else f.node, "PluralityVeto: every eliminated candidate is marked and removed from all ballots, ballot positions kept aligned", "",
               "marking / removal of eliminated candidates changed (condense=False, leave_zero_weight_ballots=True keep the per-voter indices valid)")
     # constructor: one unit ballot per vote, uniformly shuffled voter order, all candidates unmarked
